@@ -2,10 +2,13 @@
 From MpV Require Export Model.ProcOutcome.
 Open Scope Z_scope.
 
-(* ending code: 0 Return v | 1 RaiseExc e | 2 ExitNone | 3 ExitInt n | 4 ExitOther ; with its Z argument;
+(* ending code: 0 Return v | 1 RaiseExc e | 2 ExitNone | 3 ExitInt n | 4 ExitOther | 5 RaiseUnsendable | 6 ReturnUnsendable | 7 HardExit n; with its Z argument;
    kill phase 0..4; signal; observed: future kind (1 result / 2 error), payload kind+value *)
 Definition mk_ending (k : nat) (a : Z) : ending :=
-  match k with 0%nat => Return a | 1%nat => RaiseExc a | 2%nat => ExitNone | 3%nat => ExitInt a | _ => ExitOther end.
+  match k with 0%nat => Return a | 1%nat => RaiseExc a | 2%nat => ExitNone | 3%nat => ExitInt a | 4%nat => ExitOther
+  | 5%nat => RaiseUnsendable | 6%nat => ReturnUnsendable | 7%nat => HardExit a
+  | _ => RaiseExc a            (* 8: an exception of a class that needs several constructor arguments *)
+  end.
 Definition mk_phase (k : nat) : phase :=
   match k with 0%nat => NoKill | 1%nat => KillBefore | 2%nat => KillDuring | 3%nat => KillBetween | _ => KillAfter end.
 
@@ -13,8 +16,9 @@ Definition mk_phase (k : nat) : phase :=
 Definition payload_code (p : payload) : nat * Z :=
   match p with
   | PNone => (0%nat, 0) | PVal v => (1%nat, v)
-  | PExc e => if e <? -100000 + 1 then (5%nat, - 100000 - e) else (2%nat, e)
+  | PExc e => (2%nat, e)
   | PSysExit n => (3%nat, n) | PSysExitOther => (4%nat, 0)
+  | POSErr c => (5%nat, c)
   end.
 
 Definition case := (nat * Z * nat * Z * (nat * nat * Z) * bool)%type.
